@@ -140,16 +140,18 @@ class Run(object):
         os.makedirs(REPLAYS, exist_ok=True)
         safe = re.sub(r"[^A-Za-z0-9_.-]+", "_", "%s_%s_%s" % (self.pid, ob.name, signature))[:120]
         path = os.path.join(REPLAYS, safe + ".py")
-        with open(path, "w") as f:
+        tmp = path + ".%d.tmp" % os.getpid()      # parallel workers may report the same signature
+        with open(tmp, "w") as f:
             f.write(script)
         try:
-            p = subprocess.run([REAL_PY, path], capture_output=True, text=True, timeout=60,
+            p = subprocess.run([REAL_PY, tmp], capture_output=True, text=True, timeout=60,
                                env=dict(os.environ, PYTHONPATH="/repo"))
             out = p.stdout + p.stderr
             reproduced = expect_marker in p.stdout
         except subprocess.TimeoutExpired:
             out = "timeout"
             reproduced = False
+        os.replace(tmp, path)
         v = dict(signature=signature, what=what, replay=path, reproduced=reproduced, output=out[-600:])
         ob.violations.append(v)
         if reproduced:
